@@ -479,6 +479,9 @@ class Evaluator:
         # (function name, parameter, period) for every `p = remainder(p, period)`-style pre-reduction of a parameter:
         # the fold treats it as the identity and the caller must show the folded table is periodic with that period
         self.reductions: List[Tuple[str, str, "EP"]] = []
+        # (function name, parameter, value, answer, ast of the test) for every leading `if p == c: return E` special case of a
+        # factory: the fold continues with the general closed form and the caller must show that E equals it at p = c
+        self.special_cases: List[Tuple[str, str, "EP", Value, ast.AST]] = []
 
     def _reduction(self, stmt: ast.stmt, env) -> Optional[Tuple[str, "EP"]]:
         """``p = math.remainder(p, P)`` / ``math.fmod`` / ``np.mod`` / ``np.remainder`` / ``p % P`` / ``p %= P``"""
@@ -517,6 +520,9 @@ class Evaluator:
                     return self.ev(stmt.value, env)
                 elif isinstance(stmt, (ast.Pass,)) or (isinstance(stmt, ast.Expr) and isinstance(stmt.value, ast.Constant)):
                     continue
+                elif isinstance(stmt, ast.If) and not stmt.orelse and len(stmt.body) == 1 and isinstance(stmt.body[0], ast.Return) and stmt.body[0].value is not None and isinstance(stmt.test, ast.Compare) and len(stmt.test.ops) == 1 and isinstance(stmt.test.ops[0], ast.Eq) and isinstance(stmt.test.left, ast.Name) and stmt.test.left.id in names and isinstance(stmt.test.comparators[0], ast.Constant) and isinstance(stmt.test.comparators[0].value, (int, float)) and not isinstance(stmt.test.comparators[0].value, bool):
+                    self.special_cases.append((func.name, stmt.test.left.id, EP.const(_num(stmt.test.comparators[0].value)), self.ev(stmt.body[0].value, dict(env)), stmt))
+                    continue
                 elif isinstance(stmt, ast.If) and "isinstance" in norm(stmt.test) and len(stmt.body) == 1 and self._reduction(stmt.body[0], env) is not None and all(isinstance(o, ast.Assign) and isinstance(o.value, ast.Name) and norm(o.targets[0]) == o.value.id for o in stmt.orelse):
                     name, period = self._reduction(stmt.body[0], env)
                     self.reductions.append((func.name, name, period))
@@ -537,6 +543,14 @@ class Evaluator:
         if isinstance(e, ast.Name):
             if e.id in env:
                 return env[e.id]
+            ma = getattr(self, "module_assigns", None)
+            if ma and e.id in ma and self.depth < 8:
+                # a module-level definition (constant / pre-built matrix): folded where it is used
+                self.depth += 1
+                try:
+                    return self.ev(ma[e.id], {})
+                finally:
+                    self.depth -= 1
             raise Undecided(f"free name {e.id}")
         if isinstance(e, ast.Attribute):
             d = dotted(e) or ""
